@@ -17,7 +17,9 @@ TOL = 1e-6
 R = 40
 
 # (name, mode, segmentPenalty, transactions)
+# '-moves' = denser scenes, mostly moves and deletes (the situations in which a stale route can survive)
 CONFIGS = [('poly-pen0-trans', 0, 0, 1), ('poly-pen0-notrans', 0, 0, 0), ('poly-pen10-trans', 0, 10, 1),
+           ('poly-pen0-trans-moves', 0, 0, 1), ('poly-pen0-notrans-moves', 0, 0, 0),
            ('orth-trans', 1, 10, 1), ('orth-notrans', 1, 10, 0)]
 
 
@@ -104,7 +106,7 @@ def simulate(ops, trans, generic=True):
     return snaps
 
 
-def gen_history(rng, trans, orth):
+def gen_history(rng, trans, orth, w_add=28, w_move=30, w_resize=10, w_del=17):
     ops, shapes, conns = [], {}, {}
     nid = [1]
 
@@ -122,7 +124,7 @@ def gen_history(rng, trans, orth):
             return True
         return False
 
-    for _ in range(rng.range(1, 4)):
+    for _ in range(rng.range(1, 4) if w_add > 10 else rng.range(3, 6)):
         for P in new_poly():
             if try_op(('A', nid[0], P)):
                 nid[0] += 1
@@ -142,26 +144,26 @@ def gen_history(rng, trans, orth):
         k += 1
         r = rng.below(100)
         done = False
-        if r < 28 or not shapes:
+        if r < w_add or not shapes:
             if len(shapes) < 8:
                 for P in new_poly():
                     if try_op(('A', nid[0], P)):
                         fresh.add(nid[0]); nid[0] += 1; done = True
                         break
-        elif r < 58:
+        elif r < w_add + w_move:
             i = rng.choice(sorted(shapes))
             for _ in range(30):
                 if try_op(('M', i, rng.range(-15, 15), rng.range(-15, 15))):
                     done = True
                     break
-        elif r < 68:
+        elif r < w_add + w_move + w_resize:
             # resize / reshape: Obstacle::setNewPoly asserts that the vertex count is unchanged (obstacle.cpp:103)
             i = rng.choice(sorted(shapes))
             for P in new_poly():
                 if len(P) == len(shapes[i]) and try_op(('T', i, P)):
                     done = True
                     break
-        elif r < 85:
+        elif r < w_add + w_move + w_resize + w_del:
             cand = [i for i in sorted(shapes) if not (trans and i in fresh)]
             if cand:
                 done = try_op(('D', rng.choice(cand)))
@@ -477,11 +479,14 @@ def run(tier):
     fails = evaluate(exe, drv, qdrv, ch, stats, True, None) if ch else []
     stats['corpus'] = len(ch)
     report(res, exe, drv, qdrv, fails, stats, do_shrink=False)
-    n_per = 14 if tier == 'quick' else 120
+    n_per = 12 if tier == 'quick' else 110
     hists = []
     for (name, mode, pen, trans) in CONFIGS:
         for _ in range(n_per):
-            ops = gen_history(rng, trans, mode == 1)
+            if name.endswith('-moves'):
+                ops = gen_history(rng, trans, mode == 1, w_add=5, w_move=65, w_resize=10, w_del=10)
+            else:
+                ops = gen_history(rng, trans, mode == 1)
             hists.append(dict(cfg=name, mode=mode, pen=pen, trans=trans, ops=ops, generic=True))
     for _ in range(6 if tier == 'quick' else 40):
         hists.append(dict(cfg='chord-poly-pen0', mode=0, pen=0, trans=1, ops=gen_chord_history(rng), generic=False))
@@ -526,3 +531,25 @@ def replay(path):
 def warm():
     A.harness(); A.driver()
     C.ocaml_build('c06', 'C06.v', 'c06_driver.ml', 'c06_model.ml')
+
+
+META = {
+    'property_id': PID,
+    'level_claimed': {
+        'category': 'proof',
+        'text': 'Coq theorems (Properties/C06.v) over a hand model of Router\'s action queue (addShape / moveShape / deleteShape / modifyConnector / '
+                'processActions with the de-duplication rules of router.cpp): for EVERY history accepted by the model (every asserted precondition '
+                'respected, in particular no add+delete of one shape in one transaction), with transactions on or off, the shapes held after '
+                'processing equal those obtained by applying the edits one at a time; at most one queued action per (kind, object); an empty '
+                'transaction is the identity and returns false; the model\'s routes depend only on the final scene; the reflection estimate of '
+                'the selective-reroute test is a true lower bound, attained at the code\'s x*. Tie (C, three-way, every run): random legal '
+                'histories on one Avoid::Router vs the extracted queue model (scene, connector ends, empty actionList), vs a fresh Router and vs '
+                'the extracted reference router optimum (route cost to 1e-6), route_ok on every route, bit-identical routes over empty transactions.',
+        'design_ref': 'DESIGN.md 5.6'},
+    'level_note': 'partial: the refinement theorem covers the shape part of the scene (connector-end consolidation is covered by the correspondence '
+                  'only); the invisibility-graph bookkeeping (m_blocker, checkAllBlockedEdges), the clamped case of the reflection estimate and the '
+                  'orthogonal optimum are exercised only through the history-vs-scratch comparison. Known finding F-b (degenerate chord) has its own '
+                  'stream and classifier; F-g (stale routes, fixed in /repo) is kept as corpus regression entries. Trusted: Coq kernel, extraction, '
+                  'drivers, the hand model\'s reading of router.cpp (validated against the implementation on every run).',
+    'technique': 'Coq refinement proof of the action queue + three-way history correspondence (incremental / fresh router / extracted model)',
+}
